@@ -37,7 +37,7 @@ def programs(tier):
             p["exec"] = []
         out.append(p)
     # nesting depth 2
-    outer_q = ["if_then", "do_count", "select_case", "do_label", "block"]
+    outer_q = ["if_then", "do_label", "select_case"]
     for c in T.CONS:
         for o in T.CONS:
             if tier == "quick" and not (o[0] in outer_q or c[0] in ("if_then",)):
